@@ -111,7 +111,8 @@ def bounded_transport(tier, seed):
     ]
     defaults = [None, {}, {"A": "d", "Authorization": "default", "X-Key": "dk"}]
     bearers = [None, "bt"]
-    kwargss = [{}, {"headers": {"A": "r", "B": "2"}}, {"params": {"q": "1"}, "json": {"x": 1}}, {"headers": {"Authorization": "req"}, "cookies": {"c0": "v"}, "data": "raw"}]
+    kwargss = [{}, {"headers": {"A": "r", "B": "2"}}, {"params": {"q": "1"}, "json": {"x": 1}}, {"headers": {"Authorization": "req"}, "cookies": {"c0": "v"}, "data": "raw"},
+               {"headers": {"X-Int": 7, "X-Zero": 0, "X-Flag": False, "X-Yes": True, "X-List": ["a", "b"], "X-Nums": [1, 2], "X-Text": "7"}}]
     statuses = [200, 204] if tier == "quick" else [200, 201, 204, 299]
     n = 0
     distinct = set()
@@ -257,7 +258,34 @@ def bounded_repeated_requests(tier, seed):
             "exhaustive": False, "failures": uniq}
 
 
-BOUNDED = [bounded_transport, bounded_composition_order, bounded_repeated_requests]
+def bounded_header_text(tier, seed):
+    """the transport's rendering of per-request header values against a reference (OpenAPI style `simple`): text is never altered (whitespace, case,
+    digits, commas, empty), typed values become text, names are kept"""
+    from pyopenapi_gen.core import http_transport as T
+    fn_one, fn_map = getattr(T, "_header_text", None), getattr(T, "_header_texts", None)
+    if fn_one is None or fn_map is None:
+        return {"function": "_header_text / _header_texts", "backend": "bounded", "bound": "helpers absent", "evaluations": 0, "distinct_nontrivial": 0, "failures": []}
+    texts = ["", " ", "a", " a", "a ", "A b", "7", "007", "true", "True", "a,b", "a, b", "\tx", "x\n", "é", "0", "None", "[1]", "{}", "Bearer t", "  two  "]
+    typed = [0, 1, -1, 7, 10 ** 12, True, False, ["a", "b"], ["a"], [], [1, 2], ["a", 1, True], ("x", "y"), [" a ", "b"]]
+    failures, n = [], 0
+    for v in texts + typed:
+        n += 1
+        got, want = fn_one(v), H.header_text_ref(v)
+        if got != want or not isinstance(got, str):
+            failures.append({"id": f"bounded:header-text:{'text' if isinstance(v, str) else type(v).__name__}", "detail": f"_header_text({v!r}) == {got!r}, reference {want!r}", "input": {"value": v}})
+    names = ["X-A", "x-a", "X-Debug", "Authorization", "Content-Type", "", "é", "a b"]
+    for i in range(len(names)):
+        n += 1
+        d = {nm: (texts + typed)[(3 * j + i) % (len(texts) + len(typed))] for j, nm in enumerate(names[: i + 1])}
+        got = fn_map(d)
+        want = {k: H.header_text_ref(v) for k, v in d.items()}
+        if got != want:
+            failures.append({"id": "bounded:header-text:map", "detail": f"_header_texts({d!r}) == {got!r}, reference {want!r}", "input": {"headers": {k: v if not isinstance(v, tuple) else list(v) for k, v in d.items()}}})
+    return {"function": "_header_text / _header_texts against a reference", "backend": "bounded", "bound": f"{len(texts)} texts, {len(typed)} typed values, {len(names)} maps",
+            "evaluations": n, "distinct_nontrivial": n, "exhaustive": False, "failures": failures}
+
+
+BOUNDED = [bounded_transport, bounded_composition_order, bounded_repeated_requests, bounded_header_text]
 
 MANIFEST = {
     "category": "proof",
